@@ -872,34 +872,52 @@ fn canon_field(d: &[Den]) -> String {
     show_den(d)
 }
 
-/// a maximal digit run whose value exceeds i32::MAX
-fn big_run(s: &str) -> bool {
-    let b = s.as_bytes();
-    let mut i = 0;
-    while i < b.len() {
-        if b[i].is_ascii_digit() {
-            let st = i;
-            while i < b.len() && b[i].is_ascii_digit() {
-                i += 1;
+/// Can a comparison the sorts of `Relations::wrap_and_sort` may make panic (debversion's
+/// `Version::cmp` on a numeric component above i32::MAX, F-C12-1)?  Which comparisons Rust's
+/// `sort_by` makes is not modelled; the criterion is the one every sorting algorithm shares: some
+/// two DISTINCT elements of a list that gets sorted — the rebuilt alternatives of one entry, the
+/// rebuilt entries of the field — whose comparison panics (model: `Props.C13.sortMayPanic`; when it is
+/// false no sort can panic and the model's result is the real one, `C13_wrapO_pairs`).
+/// `None`: an accessor panics (`name()` / `version()`: an operator outside the five, a version
+/// `Version::from_str` refuses) — then `wrap_and_sort` panics before or whatever it compares.
+pub fn sort_may_panic(root: &Relations) -> Option<bool> {
+    let mut wrapped = vec![];
+    let mut big = false;
+    for e in root.entries() {
+        if e.relations().next().is_none() {
+            continue;
+        }
+        let mut ws = vec![];
+        for r in e.relations() {
+            let w = guard(|| r.wrap_and_sort())?;
+            guard(|| (w.name(), w.version()))?;
+            ws.push(w);
+        }
+        for i in 0..ws.len() {
+            for j in i + 1..ws.len() {
+                if guard(|| ws[i].cmp(&ws[j])).is_none() || guard(|| ws[j].cmp(&ws[i])).is_none() {
+                    big = true;
+                }
             }
-            let d = s[st..i].trim_start_matches('0');
-            if d.len() > 10 || (d.len() == 10 && d > "2147483647") {
-                return true;
+        }
+        wrapped.push(e);
+    }
+    if big {
+        return Some(true);
+    }
+    // no comparison inside an entry panics: the entries can be rebuilt
+    let mut es = vec![];
+    for e in wrapped {
+        es.push(guard(|| e.wrap_and_sort())?);
+    }
+    for i in 0..es.len() {
+        for j in i + 1..es.len() {
+            if guard(|| es[i].cmp(&es[j])).is_none() || guard(|| es[j].cmp(&es[i])).is_none() {
+                return Some(true);
             }
-        } else {
-            i += 1;
         }
     }
-    false
-}
-
-pub fn has_big_number(root: &Relations) -> bool {
-    root.entries().any(|e| {
-        e.relations().any(|r| match guard(|| r.version()) {
-            Some(Some((_, v))) => big_run(&v.upstream_version) || big_run(v.debian_revision.as_deref().unwrap_or("0")),
-            _ => false,
-        })
-    })
+    Some(false)
 }
 
 fn run_wrap(text: &str, allow: bool) -> Resp {
@@ -907,9 +925,11 @@ fn run_wrap(text: &str, allow: bool) -> Resp {
     if !errs.is_empty() {
         return Resp::ok("NOT-WELL-FORMED".to_string());
     }
-    // `debversion::Version::cmp` may panic on numeric components above i32::MAX (finding F-C12-1);
-    // which comparisons the sort makes is not modelled: such inputs are answered `BIGNUM`
-    if has_big_number(&root) {
+    // `debversion::Version::cmp` panics on numeric components above i32::MAX when the comparison
+    // reaches them (finding F-C12-1). Which comparisons the sort makes is not modelled: both sides
+    // answer `BIGNUM` exactly when some two distinct elements of a sorted list cannot be compared
+    // (`sort_may_panic`); otherwise no sort can panic and the real result is compared as usual.
+    if sort_may_panic(&root) == Some(true) {
         // not hidden: the call is made; a panic here is reported under the open finding F-C13-2
         // (same root cause as F-C12-1), whose trigger the model driver attaches to `BIGNUM`
         let panicked = guard(move || root.wrap_and_sort().to_string()).is_none();
@@ -1375,5 +1395,42 @@ pub fn generate_c13(tier: &str, seed: u64, out: &mut Out) {
         let sv = rng.chance(40);
         let f = random_field(&mut rng, &pol, sv);
         out.req("rel.wrap", &[es(&f.text()), ebool(sv).to_string()]);
+    }
+    // (appended) numbers above i32::MAX: BIGNUM exactly when two distinct elements that get sorted cannot
+    // be compared (`sort_may_panic`); a single big number, distinct names, a comparison decided before
+    // the number (epoch, earlier component, operator): the real result is compared with the model's
+    for t in [
+        "a (>= 3000000000)",
+        "a (>= 3000000000), b",
+        "b (>= 3000000000), a (>= 3000000001)",
+        "a (>= 3000000000), a (>= 3000000001)",
+        "a (>= 3000000000), a (>= 3000000000)",
+        "a (>= 3000000000), a (>= 1)",
+        "a (>= 2147483647), a (>= 1)",
+        "a (>= 2147483648), a (>= 1)",
+        "a (>= 3000000000:1), a (>= 1)",
+        "a (>= 1:3000000000), a (>= 1:1)",
+        "a (>= 1:3000000000), a (>= 2:1)",
+        "a (>= 1.3000000000), a (>= 2.1)",
+        "a (>= 1.3000000000), a (>= 1.1)",
+        "a (>= 0~20240101120000)",
+        "a (>= 0~20240101120000), b (>= 0~20240101120001)",
+        "a (>= 0~20240101120000) | a (>= 0~20240101120001)",
+        "a (>= 0~20240101120000) | b (>= 0~20240101120001), c",
+        "z | a (>= 3000000000), y | a (>= 3000000000)",
+        "a (>= 3000000000) | z, a (>= 3000000000) | y",
+        "a (>= 3000000000) | z, a (>= 3000000001) | y",
+        "a (<< 3000000000), a (>= 3000000000)",
+        "a (>= 1-3000000000), a (>= 1-3000000001)",
+        "a (>= 1-3000000000), a (>= 2-3000000001)",
+        "a (>= 00000000002), a (>= 1)",
+        "a (>= 3000000000) [amd64], a (>= 3000000000) [i386]",
+        "a:any (>= 3000000000), a (>= 3000000000)",
+        "c, a (>= 3000000000), b, a",
+        "a (>= 3000000000), a (> 1)",
+        "a (> 1), b (>= 3000000000), b (>= 3000000001)",
+    ] {
+        out.req("rel.wrap", &[es(t), "0".into()]);
+        out.req("rel.wrap", &[es(&format!("${{x:y}}, {}", t)), "1".into()]);
     }
 }
